@@ -82,6 +82,8 @@ class Cont(Value):
     kind: str = "dict"
     autoviv: bool = False
     origin: str = ""       # site that created the container (kept by copies)
+    cname: str = "dict"    # concrete class of the container
+    kinds: set = field(default_factory=set)   # classes of contained containers
 
     def __post_init__(self):
         if not self.origin:
@@ -185,6 +187,8 @@ class Event:
     where: str
     stmt: str
     path: tuple = ()
+    vkind: str = ""          # class of a container value stored (if any)
+    vkinds: tuple = ()       # classes of its contained containers
 
 
 class Interp:
@@ -398,6 +402,7 @@ class Frame:
             if a.inner is not before:
                 a.why = b.why
             a.autoviv = a.autoviv or b.autoviv
+            a.kinds |= b.kinds
             return a
         if isinstance(a, Const) and isinstance(b, Const):
             return a if a.value == b.value else IMM
@@ -410,12 +415,14 @@ class Frame:
                 return b
         return join(a, b)
 
-    def event(self, kind, target: Value, node, level_hint=0):
+    def event(self, kind, target: Value, node, level_hint=0, value=None):
+        vk = value.cname if isinstance(value, Cont) else ""
+        vks = tuple(sorted(value.kinds)) if isinstance(value, Cont) else ()
         if isinstance(target, Shared):
             self.I.events.append(Event(
                 kind, target.owner, target.slot, target.level,
                 self.fi.short, self.fi.loc(node), norm(node, 110),
-                tuple(self.I.stack)))
+                tuple(self.I.stack), vk, vks))
         elif isinstance(target, In):
             self.I.events.append(Event(
                 kind, target.label, "<object>", 0, self.fi.short,
@@ -565,7 +572,8 @@ class Frame:
                 base.slots[target.attr] = v
                 base.why[target.attr] = self.site(st)
             elif isinstance(base, In):
-                self.event("rebind", Shared(base.label, target.attr, 0), st)
+                self.event("rebind", Shared(base.label, target.attr, 0), st,
+                           value=v)
             elif isinstance(base, Unknown):
                 pass
         elif isinstance(target, ast.Subscript):
@@ -580,11 +588,13 @@ class Frame:
 
     def store_into(self, base: Value, v: Value, st: ast.AST) -> None:
         if isinstance(base, Cont):
+            if isinstance(v, Cont):
+                base.kinds.add(v.cname)
             if depth(v) < depth(base.inner):
                 base.inner = v
                 base.why = self.site(st)
         elif isinstance(base, (Shared, In)):
-            self.event("write", base, st)
+            self.event("write", base, st, value=v)
         elif isinstance(base, View):
             self.store_into(base.base, v, st)
 
@@ -685,7 +695,8 @@ class Frame:
             v = self.ev(x.value if isinstance(x, ast.Starred) else x)
             v = elem(v) if isinstance(x, ast.Starred) else v
             inner = join(inner, v)
-        return Cont(True, inner, why=self.site(e), kind="list")
+        return Cont(True, inner, why=self.site(e), kind="list",
+                    cname="set" if isinstance(e, ast.Set) else "list")
 
     ev_Set = ev_List
 
@@ -701,7 +712,8 @@ class Frame:
             else:
                 self.ev(k)
             inner = join(inner, val)
-        return Cont(True, inner, why=self.site(e))
+        return Cont(True, inner, why=self.site(e),
+                    kinds={v.cname for v in vals if isinstance(v, Cont)})
 
     def _comp(self, e, elt_fn):
         sub = self.fork()
@@ -718,7 +730,9 @@ class Frame:
     def ev_ListComp(self, e):
         v = self._comp(e, lambda f: f.ev(e.elt))
         return Cont(True, v if depth(v) < INF else DEEPV, why=self.site(e),
-                    kind="list")
+                    kind="list",
+                    cname="set" if isinstance(e, ast.SetComp) else "list",
+                    kinds={v.cname} if isinstance(v, Cont) else set())
 
     ev_SetComp = ev_ListComp
     ev_GeneratorExp = ev_ListComp
@@ -728,7 +742,8 @@ class Frame:
             fr.ev(e.key)
             return fr.ev(e.value)
         v = self._comp(e, f)
-        return Cont(True, v if depth(v) < INF else DEEPV, why=self.site(e))
+        return Cont(True, v if depth(v) < INF else DEEPV, why=self.site(e),
+                    kinds={v.cname} if isinstance(v, Cont) else set())
 
     def ev_IfExp(self, e):
         t = self.truth(e.test)
@@ -943,14 +958,19 @@ class Frame:
                     "Counter", "deque") and not isinstance(f, ast.Attribute) \
                 or name in ("collections.defaultdict",):
             src = [a for a in args if depth(a) < INF]
+            cn = last if last in ("set", "list", "defaultdict") else "dict"
             if not src:
-                return Cont(True, DEEPV, why=self.site(e))
+                return Cont(True, DEEPV, why=self.site(e), cname=cn)
             inner: Value = DEEPV
+            ks: set = set()
             for s in src:
                 inner = join(inner, elem(s) if last in ("set", "list", "deque")
                              else inner_of(s, self))
+                if isinstance(s, Cont):
+                    ks |= s.kinds
             return Cont(True, inner, why=self.site(e),
-                        kind="set" if last == "set" else "dict")
+                        kind="set" if last == "set" else "dict", cname=cn,
+                        kinds=ks)
         if last in ("MappingProxyType",) and args:
             return args[0]
         if last in ("tuple", "frozenset", "sorted", "reversed", "iter") and args:
@@ -1058,13 +1078,19 @@ class Frame:
                 src = v.slots.get(s) if isinstance(v, Obj) else None
                 o.slots[s] = Cont(True, DEEPV, why="deepcopy",
                                   origin=src.origin if isinstance(src, Cont)
-                                  else "deepcopy")
+                                  else "deepcopy",
+                                  cname=src.cname if isinstance(src, Cont)
+                                  else "dict",
+                                  kinds=set(src.kinds) if isinstance(src, Cont)
+                                  else set())
                 o.why[s] = "deepcopy"
             return o
         if depth(v) >= INF and not isinstance(v, Cont):
             return v
         return Cont(True, DEEPV, why="deepcopy",
-                    origin=v.origin if isinstance(v, Cont) else "deepcopy")
+                    origin=v.origin if isinstance(v, Cont) else "deepcopy",
+                    cname=v.cname if isinstance(v, Cont) else "<src>",
+                    kinds=set(v.kinds) if isinstance(v, Cont) else set())
 
     def instantiate(self, cls: str, args, kwargs, e) -> Value:
         ci = self.prog.classes.get(cls)
@@ -1075,11 +1101,11 @@ class Frame:
                    for b in ci.bases):
                 src = [a for a in args if depth(a) < INF]
                 if not src:
-                    return Cont(True, DEEPV, why=self.site(e))
+                    return Cont(True, DEEPV, why=self.site(e), cname=cls)
                 inner: Value = DEEPV
                 for s in src:
                     inner = join(inner, inner_of(s, self))
-                return Cont(True, inner, why=self.site(e))
+                return Cont(True, inner, why=self.site(e), cname=cls)
             return IMM if all(depth(a) >= INF for a in list(args) + list(
                 kwargs.values())) else Unknown(f"constructor {cls}")
         obj = Obj(cls)
@@ -1093,7 +1119,11 @@ class Frame:
         if meth in ("items", "values", "keys"):
             return View(meth, base)
         if meth == "copy":
-            return shallow(base, self.site(e), self)
+            out = shallow(base, self.site(e), self)
+            if isinstance(out, Cont) and out.cname not in (
+                    "dict", "set", "list", "defaultdict"):
+                out.cname = "dict"     # dict.copy() of a subclass is a dict
+            return out
         if meth in ("get", "pop", "setdefault", "popitem"):
             out = inner_of(base, self)
             if meth == "setdefault" and len(args) > 1:
@@ -1106,6 +1136,8 @@ class Frame:
             return out
         if meth in ("update", "__ior__"):
             for a in args:
+                if isinstance(a, Cont) and isinstance(base, Cont):
+                    base.kinds |= a.kinds
                 self.store_into(base, inner_of(a, self) if not isinstance(
                     a, Tup) else elem(a), e)
             for k, v in kwargs.items():
@@ -1198,7 +1230,9 @@ DEFAULT_LEVELS = {"_atom_attrs": 2, "_neighbors": 2, "_bond_attrs": 2,
 def shallow(v: Value, why: str, frame: Frame | None = None) -> Value:
     if isinstance(v, (Cont, Shared, View)):
         return Cont(True, inner_of(v, frame), why=why,
-                    origin=v.origin if isinstance(v, Cont) else why)
+                    origin=v.origin if isinstance(v, Cont) else why,
+                    cname=v.cname if isinstance(v, Cont) else "dict",
+                    kinds=set(v.kinds) if isinstance(v, Cont) else set())
     if isinstance(v, In) and frame is not None:
         # copy.copy(graph): new object, same containers
         o = Obj(v.cls)
